@@ -67,7 +67,7 @@ class Layout:
 
 
 def build(tables, file_objects=None, *, hdr_seqs=(2, 1), sigs=None, version=0x400, extra_objects=(), objtab_chain=False,
-          table_size=0x1000):
+          table_size=0x1000, more_objtabs=None):
     """tables: list of {"idx", "seq", "entries": [bytes...]} in object-table order (entries already encoded, with resolved
     parent offsets).  file_objects: {offset_placeholder_key: bytes} handled by the caller through Layout.
     Returns bytes."""
@@ -91,6 +91,12 @@ def build(tables, file_objects=None, *, hdr_seqs=(2, 1), sigs=None, version=0x40
         ot += struct.pack("<BIQIB", typ, 0x1234, off, size, alloc)
     assert len(ot) <= 0x1000
     out[0x2000] = ot
+    for off, ents in (more_objtabs or {}).items():
+        # additional object tables (reachable through ObjectTable entries): {offset: [(type, offset, size, allocated)]}
+        t = struct.pack("<II", SIG_OBJTAB, len(ents))
+        for typ, o2, size, alloc in ents:
+            t += struct.pack("<BIQIB", typ, 0x1234, o2, size, alloc)
+        out[off] = t.ljust(0x1000, b"\0")
     out[0x3000] = replay_log(sig=sigs.get("replay", SIG_REPLAY))
     out[0] = file_header(hdr_seqs[0], sig=sigs.get("head1", SIG_HEADER), version=version)
     out[0x1000] = file_header(hdr_seqs[1], sig=sigs.get("head2", SIG_HEADER), version=version)
